@@ -34,6 +34,24 @@ func c11get(idx int) pipeCase {
 			spec = rng.Pick(r, grammar.Specs)
 		}
 		v := grammar.Generate(spec, r, fmt.Sprintf("t%d.%d", idx, i))
+		if i > 0 && r.Chance(1, 4) {
+			// boundary shapes of the final argument: empty ('$0'), one byte, ending in CR, ending in CRLF
+			last := len(v.Argv) - 1
+			if v.Slots[last].Kind == grammar.KStr && v.Slots[last].Role != "optkw" && v.Class == grammar.Core && len(v.Expect) == 1 && v.Cmd != "SCAN" && v.Cmd != "KEYS" {
+				tail := rng.Pick(r, []string{"", "x", "\r", "\r\n", "a\r"})
+				old := string(v.Argv[last])
+				if strings.HasPrefix(old, v.Token+":") {
+					// keep the token (attribution) but make the argument END with the boundary shape
+					tail = v.Token + ":" + tail
+				} else if strings.Count(v.Expect[0].Str, double.Q(old)) != 1 {
+					tail = old
+				}
+				if tail != old && strings.Count(v.Expect[0].Str, double.Q(old)) == 1 {
+					v.Argv[last] = []byte(tail)
+					v.Expect[0].Str = strings.Replace(v.Expect[0].Str, double.Q(old), double.Q(tail), 1)
+				}
+			}
+		}
 		pc.Reqs = append(pc.Reqs, pipeReq{Kind: "valid", V: v, Req: v.Value()})
 	}
 	return pc
